@@ -31,7 +31,14 @@ def sh(cmd):
 def main():
     a = sys.argv[1:]
     pid, n, patch, notes = a[:4]
-    checks = a[a.index('--checks') + 1].split() if '--checks' in a else None
+    checks = None
+    if '--checks' in a:
+        # every following token up to the next flag is a check id (quotes from a job file are tolerated)
+        checks = []
+        for tok in a[a.index('--checks') + 1:]:
+            if tok.startswith('--'):
+                break
+            checks += [c for c in tok.replace('"', ' ').split() if c]
     if '--all' in a:
         checks = ALL
     if checks is None:
